@@ -19,6 +19,9 @@ DESCRIPTORS = {
     "imported_struct_field": {"defs": [S, ["msg", "USE", [["p", "PT", 0], ["n", "int32", 0]]]], "imported": 1},
     "imported_alias_field": {"defs": [["alias", "ID_T", "uint16"], ["struct", "REC", [["id", "ID_T", 0], ["ids", "ID_T", 2]]], ["msg", "RECS", [["r", "REC", 2]]]], "imported": 1},
     "imported_msg_in_msg": {"defs": [["msg", "INNER", [["v", "int32", 0]]], ["msg", "OUTER", [["i", "INNER", 0]]]], "imported": 1},
+    "constant_expressions": {"consts": [["RATE", 1000], ["PERIOD", "1/RATE"], ["N_CH", 7], ["HALF", "N_CH/2"], ["TWICE", "N_CH*2"], ["GAIN", 2.5],
+                                        ["SCALED", "GAIN*N_CH"], ["LEN", "N_CH + 1"], ["NEG", "3 - N_CH"], ["PAREN", "(N_CH + 1)/4"], ["EXACT", "8/2"]],
+                             "defs": [["msg", "BUF", [["data", "int16", "LEN"], ["more", "double", "N_CH*2"]]]], "imported": 0},
     # --- shapes the documented grammar allows but whose emission order the back ends get wrong (known findings)
     "alias_of_imported_struct": {"kf": "C15-alias-of-struct-order", "defs": [S, ["alias", "POINT", "PT"], ["msg", "USEA", [["p", "POINT", 0]]]], "imported": 1},
     "alias_of_imported_struct_in_struct": {"kf": "C15-alias-of-struct-order", "defs": [S, ["alias", "POINT", "PT"], ["struct", "SEG", [["a", "POINT", 0], ["b", "POINT", 0]]]], "imported": 1},
@@ -26,3 +29,42 @@ DESCRIPTORS = {
 }
 KNOWN_BAD = ("alias_of_imported_struct", "alias_of_imported_struct_in_struct", "struct_uses_imported_message")
 GOOD = [k for k in DESCRIPTORS if k not in KNOWN_BAD]
+
+
+def generated(natives=("char", "int8", "uint16", "int32", "float", "double", "unsigned long long", "byte", "signed char")):
+    """systematic family: every kind of field type x scalar/array x container kind x (type defined here / in an imported file)"""
+    out = {}
+    for ti, tkind in enumerate(("native", "alias", "alias2", "struct", "struct_arr_elem", "message")):
+        for arr in (0, 3):
+            for cont in ("struct", "msg"):
+                for imp in (0, 1):
+                    for ni, nat in enumerate(natives if tkind in ("native", "alias") else natives[:1]):
+                        pre = []
+                        if tkind == "native":
+                            t = nat
+                            if imp:
+                                continue
+                        elif tkind == "alias":
+                            pre = [["alias", "AL", nat]]
+                            t = "AL"
+                        elif tkind == "alias2":
+                            pre = [["alias", "AL", "int16"], ["alias", "AL2", "AL"]]
+                            t = "AL2"
+                        elif tkind in ("struct", "struct_arr_elem"):
+                            pre = [["struct", "ST", [["a", "int8", 0], ["b", "double", 0]] if tkind == "struct" else [["a", "int16", 0], ["c", "char", 3]]]]
+                            t = "ST"
+                        else:
+                            pre = [["msg", "MG", [["v", "int32", 0], ["w", "int8", 0]]]]
+                            t = "MG"
+                            if cont == "struct":
+                                continue      # a struct cannot refer to a message of its own file (struct_defs are read first); the imported case is a known finding
+                        container = [cont, "CONT", [["c0", "char", 0], ["f1", t, arr], ["tail", "int8", 0]]]
+                        defs = pre + [container]
+                        if cont == "struct":
+                            defs.append(["msg", "USER", [["s", "CONT", 0]]])
+                        out["gen_%s_%s_%d_%d_%d" % (tkind, cont, arr, imp, ni)] = {"defs": defs, "imported": len(pre) if imp else 0}
+    return out
+
+
+ALL_GOOD = dict((k, DESCRIPTORS[k]) for k in GOOD)
+ALL_GOOD.update(generated())
